@@ -74,7 +74,7 @@ def d1_parser(ctx):
             line = None
             if okv:
                 tr = strip_old(fs[0][2][0])
-                okv = is_call(tr, name_contains="<impl str>::trim") and not tr[1].endswith("trim_matches")
+                okv = is_call(tr) and tr[1].endswith("<impl str>::trim")   # both ends: `trim_end` / `trim_start` would reject an indented address
                 if okv:
                     line = strip_old(tr[2][0])
             # line = pair.1 of text.lines().enumerate() - or the plain element of text.lines()
